@@ -19,6 +19,7 @@ def run(ctx):
     rng = ctx.rng
     nt = lambda c, i: i.startswith("(")
     cases, meta = [], []
+    tie_groups = []           # [spec_tie] (doc, enc, flavor, strategy, resolver, shape, text, binary, expected, first case, number of cases)
     n = ctx.scale(3000, 20000)
     for _ in range(n):
         doc = D.gen_doc(rng, ops=False, i64=False, allow_escape=(rng.random() < 0.15))
@@ -59,6 +60,7 @@ def run(ctx):
             else:
                 cases.append("\t".join([kind, p, strat, res, fl, shs, hx(b)]))
         meta.append((g0, len(group), et))
+        tie_groups.append((doc, enc, fl, strat, res, sh, txt, b, et, g0, len(group)))      # [spec_tie]
     impl, _ = ctx.correspond("text-vs-binary", cases, nontrivial=nt, model=False)
     base = len(impl) - len(cases)
     for (g0, k, exp) in meta:
@@ -69,6 +71,16 @@ def run(ctx):
                      [cases[g0], cases[g0 + j]], [outs[0], outs[j]], exp)
         elif outs[0] != exp:
             ctx.fail("value", "both renderings give %s, the logical document says %s" % (outs[0][:200], exp[:200]), [cases[g0], cases[g0 + 1]], outs[:2], exp)
+
+    # ---- [spec_tie] BEGIN: the Coq renderings LogicDoc.to_text / to_bin (what Props/C10_link.v is stated over) extracted and
+    # run on the documents generated above (converted to LogicDoc.ldoc + an encoding choice; see props/spectie.py):
+    # (a) D.render_bin = BinDoc.enc_doc (to_bin e d) and D.render_text = TextDoc.render (to_text d) under the gaps of the
+    # rendering, byte for byte; (b) D.expected = TextDeSpec.spec_value on to_text d = BinDoc.spec_value on to_bin e d (the
+    # conclusion of C10_spec_of_agree); (c) the text paths' values = the text specification, the binary paths' values =
+    # the binary specification.
+    from props import spectie
+    spectie.run_logic(ctx, tie_groups, cases, impl, base, ctx.scale(3000, 20000))
+    # ---- [spec_tie] END
 
     # the binary walks inside the Coq model (BinDeTape / BinDeOndemand / BinDeReader, Props/C04_walk.v, C10_walk.v)
     # on the binary renderings of this property's documents
